@@ -59,8 +59,14 @@ def applications(dunder):
     for n in ast.walk(dunder):
         if isinstance(n, ast.Call) and unparse(n.func) in ("xmap", "map") and n.args and unparse(n.args[0]) == "op_func":
             out.append((tuple(prov(a, {}) for a in n.args[1:]), n))
-        elif isinstance(n, ast.Call) and unparse(n.func) in ("xmap", "map") and n.args and isinstance(n.args[0], ast.Lambda):
-            lam = n.args[0]
+        elif isinstance(n, ast.Call) and unparse(n.func) in ("xmap", "map") and n.args and (
+                isinstance(n.args[0], ast.Lambda) or (isinstance(n.args[0], ast.Name) and n.args[0].id != "op_func")):
+            lams = [n.args[0]] if isinstance(n.args[0], ast.Lambda) else [
+                a.value for a in ast.walk(dunder) if isinstance(a, ast.Assign) and unparse(a.targets[0]) == n.args[0].id
+                and isinstance(a.value, ast.Lambda)]
+            if not lams:
+                continue
+            lam = lams[-1]
             binds = {}
             for p, src in zip([a.arg for a in lam.args.args], n.args[1:]):
                 binds[p] = prov(src, {})
@@ -232,6 +238,43 @@ def run(chk, repo):
             chk.decide(ok, "C01.lazy-shortest", W, "iterable operands are zipped, others repeated: " +
                        (unparse(ifs[1].test) if len(ifs) > 1 else "?"),
                        why="iterables must be paired element by element, non-iterables closed over", node=inner)
+    # closure freshness of the scalar arm
+    chk.rule("C01.closure", "the function mapped over the stream in the scalar arm is a lambda written in the dunder "
+                            "itself (a fresh closure over this call's operand); it never comes from a memoising helper "
+                            "(cached / lru_cache), where operands that merely compare equal (2, 2.0, Fraction(2), True) "
+                            "would share one closure")
+    MEMO = ("cached", "lru_cache", "functools.lru_cache", "cache", "functools.cache", "memoize")
+    for kind in ("__binary__", "__rbinary__"):
+        t = repo.find("lazy_stream", "StreamMeta." + kind)
+        inner = [f for f in t.body if isinstance(f, FuncTypes)][0]
+        W = "%s:StreamMeta.%s" % (smod.relpath, kind)
+        maps = [n for n in ast.walk(inner) if isinstance(n, ast.Call) and canon_call(smod, n) == "map" and len(n.args) == 2]
+        chk.require(maps, "%s: scalar arm (map of a one-argument function) not found" % W)
+        for mcall in maps:
+            f = mcall.args[0]
+            sources = [f]
+            if isinstance(f, ast.Name):
+                sources = [a.value for a in ast.walk(inner) if isinstance(a, ast.Assign) and unparse(a.targets[0]) == f.id]
+                if not sources:
+                    raise AnalysisError("%s: origin of the mapped function %s not found" % (W, f.id))
+            for src in sources:
+                if isinstance(src, ast.Lambda):
+                    chk.ok("C01.closure", W, "mapped function is an inline lambda: " + short(src), node=src)
+                elif isinstance(src, ast.Call) and isinstance(src.func, ast.Name):
+                    origin = [a.value for a in ast.walk(t) if isinstance(a, ast.Assign) and unparse(a.targets[0]) == src.func.id]
+                    memo = any(isinstance(o, ast.Call) and unparse(o.func) in MEMO for o in origin) or src.func.id in MEMO
+                    if memo:
+                        chk.bad("C01.closure", W, "mapped function comes from " + short(src),
+                                "the closure is looked up in a cache keyed by the operand: operands that compare equal "
+                                "but differ in type (2 / 2.0 / Fraction(2), 1 / True, 0.0 / -0.0) reuse the closure "
+                                "bound to the first one seen - the non-iterable operand is no longer the one given",
+                                node=src)
+                    else:
+                        raise AnalysisError("%s: mapped function built by %s - cannot tell whether the closure is fresh"
+                                            % (W, short(src)))
+                else:
+                    raise AnalysisError("%s: mapped function %s not understood" % (W, short(src)))
+
     # getattr / call
     ga = repo.find("lazy_stream", "Stream.__getattr__")
     r = docstring_free(ga.body)[-1]
